@@ -270,9 +270,25 @@ func Decoders() []Decoder {
 	ds = append(ds, plain(403, "dpos/msg.ResponseInactiveArbitrators.Deserialize", func() serializable { return &dmsg.ResponseInactiveArbitrators{} }, nil))
 	ds = append(ds, plain(404, "dpos/msg.Addr.Deserialize", func() serializable { return &dmsg.Addr{} }, nil))
 	ds = append(ds, plain(405, "dpos/msg.GetBlocks.Deserialize", func() serializable { return &dmsg.GetBlocks{} }, nil))
+	ds = append(ds, plain(313, "msg.GetData.Deserialize", func() serializable { return &msg.GetData{} }, nil))
+	ds = append(ds, plain(314, "msg.NotFound.Deserialize", func() serializable { return &msg.NotFound{} }, nil))
+	ds = append(ds, plain(315, "msg.Pong.Deserialize", func() serializable { return &msg.Pong{} }, nil))
+	ds = append(ds, plain(406, "dpos/msg.Inventory.Deserialize", func() serializable { return &dmsg.Inventory{} }, nil))
+	ds = append(ds, plain(407, "dpos/msg.RequestConsensus.Deserialize", func() serializable { return &dmsg.RequestConsensus{} }, nil))
+	ds = append(ds, plain(408, "dpos/msg.RequestProposal.Deserialize", func() serializable { return &dmsg.RequestProposal{} }, nil))
+	ds = append(ds, plain(409, "dpos/msg.Daddr.Deserialize", func() serializable { return &dmsg.Daddr{} }, nil))
+	ds = append(ds, plain(410, "dpos/msg.Ping.Deserialize", func() serializable { return &dmsg.Ping{} }, nil))
+	ds = append(ds, plain(411, "dpos/msg.Reject.Deserialize", func() serializable { return &dmsg.Reject{} }, nil))
+	ds = append(ds, plain(412, "dpos/msg.ResponseRevertToDPOS.Deserialize", func() serializable { return &dmsg.ResponseRevertToDPOS{} }, nil))
+	ds = append(ds, plain(413, "dpos/msg.VerAck.Deserialize", func() serializable { return &dmsg.VerAck{} }, nil))
+	ds = append(ds, plain(414, "dpos/msg.IllegalProposals.Deserialize", func() serializable { return &dmsg.IllegalProposals{} }, nil))
+	ds = append(ds, plain(415, "dpos/msg.IllegalVotes.Deserialize", func() serializable { return &dmsg.IllegalVotes{} }, nil))
+	ds = append(ds, plain(416, "dpos/msg.SidechainIllegalData.Deserialize", func() serializable { return &dmsg.SidechainIllegalData{} }, nil))
+	ds = append(ds, plain(417, "dpos/msg.Proposal.Deserialize", func() serializable { return &dmsg.Proposal{} }, nil))
+	ds = append(ds, plain(418, "dpos/msg.Vote.Deserialize", func() serializable { return &dmsg.Vote{} }, nil))
 	for i := range ds {
 		switch ds[i].ID {
-		case 300:
+		case 300, 313, 314:
 			ds[i].Prealloc = 50000 * 48 // MaxInvPerMsg x (InvVect + pointer)
 		case 301:
 			ds[i].Prealloc = 500 * 48 // MaxBlockLocatorsPerMsg
